@@ -2,7 +2,7 @@
    Only statements.  Index-level model: Parser/StreamModel.v; it refines the list-level machine of
    Parser/AbsStream.v (StreamRefine.v); the conservation laws are proved there (StreamInv.v) against the
    specification functions of Parser/StreamSpec.v. *)
-From FV Require Import Base.Bytes Gen.Generated Parser.ReqModel Parser.StreamModel Parser.AbsStream Parser.StreamSpec Parser.StreamRefine Parser.StreamInv Parser.ReqWire Parser.ReqTargets Parser.StreamFinal.
+From FV Require Import Base.Bytes Gen.Generated Parser.ReqModel Parser.StreamModel Parser.AbsStream Parser.StreamSpec Parser.StreamRefine Parser.StreamInv Parser.ReqWire Parser.ReqTargets Parser.StreamFinal Parser.ProgressTargets Parser.ProgressProofs.
 
 (* the index-level parser (cursors, copy_within, compress) computes exactly what the list-level machine
    computes, and keeps the buffer bookkeeping invariant (= debug_assert_invars!) *)
@@ -221,6 +221,40 @@ Theorem C02_end_reported :
     stream_at_end p' = true /\
     s_dest s = [] /\ cdelivered maxc sp0 ops ++ stream_buffer p' = content_rcds role id sg rs.
 Proof. exact C02_end_reported. Qed.
+
+(* PROGRESS in both delivery modes: a call that returns Ok leaves nothing of the selected stream behind in the
+   unparsed part of the buffer, unless the caller's destination is full (then exactly c bytes were delivered):
+   a call returns 0 bytes only when the buffered input holds no further byte of the stream *)
+Theorem C02_parse_progress :
+  forall (maxc : N) (p : sp) (new : bytes) (dest : option N) (p' : sp) (s : status),
+  sp_inv p ->
+  call_legal p new dest ->
+  sparse maxc p new dest = StOk p' s ->
+  coming p' [] = [] \/ (exists c : N, dest = Some c /\ len (s_dest s) = c).
+Proof. exact parse_progress. Qed.
+
+(* ... along a whole schedule: if the last call left its destination unfilled, what the caller has received
+   plus the stream buffer is everything the bytes fed so far contain of the stream *)
+Theorem C02_schedule_progress :
+  forall (maxc : N) (rp : parser) (r : req) (sp0 : sp) (rs : list rcd) (t : list N) 
+    (ops : list cop) (new : list N) (dest : option N) (u : list N) (p' : sp) (s : status),
+  parser_ok rp ->
+  st rp = Done r ->
+  into_stream_parser rp = inl sp0 ->
+  Forall rcd_ok rs ->
+  held rp ++ cfed ops ++ new ++ u = enc_rcds rs ++ t ->
+  csched_legal maxc sp0 ops ->
+  call_legal (cfinal maxc sp0 ops) new dest ->
+  sparse maxc (cfinal maxc sp0 ops) new dest = StOk p' s ->
+  (forall c : N, dest = Some c -> len (s_dest s) < c) ->
+  let role := r_role r in
+  let id := r_id r in
+  let sg := Header.next_input_stream role None in
+  exists more : list N,
+    cdelivered maxc sp0 ops ++ s_dest s ++ stream_buffer p' ++ more =
+    content_rcds role id sg rs ++ (if content_open role id sg rs then CF role id sg false 0 0 t else []) /\
+    more = coming p' u /\ coming p' [] = [].
+Proof. exact schedule_progress. Qed.
 
 (* non-vacuity: a Filter request, 9 records (Stdin / junk / Data), a 7-operation schedule with 1..n byte chunks *)
 Example C02_example : cdelivered 10 exf_sp0 exf_ops1 ++ stream_buffer (cfinal 10 exf_sp0 exf_ops1) = [97; 98; 99].
